@@ -259,7 +259,12 @@ def bits2int(hb, n):
 def ecdsa_sig(rng, aid, curve, d, k, cls, msg=None, hashname='sha256', pub=None, curve_label=None):
   ct, _, rc = named_curves()[curve]
   msg = msg if msg is not None else rng.getrandbits(128).to_bytes(16, 'big')
+  zero_first = hashname.endswith('z')            # e.g. sha512z: a digest whose first byte is zero
+  hashname = hashname.rstrip('z')
   hb = hashlib.new(hashname, msg).digest()
+  while zero_first and hb[0] != 0:
+    msg = rng.getrandbits(128).to_bytes(16, 'big')
+    hb = hashlib.new(hashname, msg).digest()
   z = bits2int(hb, rc.n)
   while True:
     r, s = ref_sign(rc, d, k, z)
